@@ -34,7 +34,7 @@ def _chains(f_load_all):
 def run(ctx):
     repo = ctx.repo
     ctx.decided = ['C07.1 hand-applied enum tags resolve', 'C07.2 reader/XML vocabulary', 'C07.3 highest version wins', 'C07.4 positional lookup',
-                   'C07.5 overrides call super', 'C07.6 enum decode table', 'C07.7 unknown interface undecorated, not dropped', 'C07.8 description field mapping']
+                   'C07.5 overrides call super', 'C07.6 enum decode table', 'C07.7 unknown interface undecorated, not dropped', 'C07.8 description field mapping', 'C07.9 names, labels and nil types are displayed']
     ctx.undecided = ['the per-entry facts (~260 interfaces x entries x values) as an enumeration (they follow from C07.4/6 + the XML)', 'parse_enum_value arithmetic']
     ctx.assumptions = ['only the shipped corpus is analysed; system protocol directories (/usr/share/wayland*) are outside the tree',
                        'observation (not raised): interfaces with equal-version duplicates exist; the property speaks of the highest version']
@@ -400,6 +400,34 @@ def run(ctx):
         for node in f.body_nodes():
             if isinstance(node, ast.Assign) and isinstance(node.targets[0], ast.Name) and node.targets[0].id == cont:
                 ctx.check(norm(node.value) in ('OrderedDict()', '{}', 'dict()'), 'C07.8', '%s:%s-ordered' % (fn, cont), f.loc(node), '%s keeps document order' % cont)
+    # ---- C07.9 names, labels and nil types are displayed ----------------------------------------------------------------------------
+    f_bs = repo.func('Arg.Base.__str__')
+    for p in paths_of(repo, f_bs):
+        if p.outcome[0] != 'return':
+            continue
+        none = [v for a, v in p.decisions if a.text == 'self.name is None'] + [not v for a, v in p.decisions if a.text == 'self.name']
+        t = norm(p.outcome[1])
+        if not none:
+            ctx.violation('C07.9', 'display:name-unconditional', f_bs.loc(), 'Arg.__str__ does not depend on the argument name (%s)' % t[:80])
+            continue
+        ctx.check(("self.name + '='" in t) == (not none[0]) and 'self.value_to_str()' in t, 'C07.9', 'display:name-prefix:%s' % (not none[0]), f_bs.loc(),
+                  'an argument is shown as name=value exactly when a name was resolved', 'argument display is %s (name resolved: %s)' % (t[:100], not none[0]))
+    f_iv = repo.func('Arg.Int.value_to_str')
+    for p in paths_of(repo, f_iv):
+        if p.outcome[0] != 'return':
+            continue
+        has = [v for a, v in p.decisions if a.text == "hasattr(self, 'labels')"]
+        t = norm(p.outcome[1])
+        ctx.check(bool(has) and ('for i in self.labels]' in t and '.join(' in t) == has[0] and 'str(self.value)' in t, 'C07.9', 'display:enum-labels:%s' % (has[0] if has else '?'), f_iv.loc(),
+                  'an integer shows its value and, when it has labels, all of them', 'integer display is %s' % t[:120])
+    f_nv = repo.func('Arg.Null.value_to_str')
+    for p in paths_of(repo, f_nv):
+        if p.outcome[0] != 'return':
+            continue
+        typed = [v for a, v in p.decisions if a.text == 'self.type'] + [not v for a, v in p.decisions if a.text == 'self.type is None']
+        t = norm(p.outcome[1])
+        if typed and typed[0]:
+            ctx.check("'null ' + self.type" in t, 'C07.9', 'display:nil-type', f_nv.loc(), 'a nil argument shows the interface the protocol declares', 'nil display is %s' % t[:80])
     return ('XML corpus cross-checks (hand-applied tags, reader vocabulary), scenario tables for version contest and enum decoding, identity '
             'chains for the positional lookup and the field mapping. Corpus: %d files, %d interfaces. Decided: %s. Undecided: %s'
             % (len(cp.files), len(cp.interfaces), '; '.join(ctx.decided), '; '.join(ctx.undecided)))
